@@ -452,22 +452,18 @@ Definition cb_account (o : fpops) (k : kcfg) (d : dev) (in_move : bool) (t fo fc
      fo, acc_full (acc_pre k d false in_move (u32 (t - last_time d))) false fc)
   else
     (upd_times (if ac_step d =? 0 then fl_clear d FLAG_CALIBRATION_IN_PROGRESS else d) 0 0 (last_time d) (last_comm d), fo, fc).
-(* (4) supla_esp_gpio_rs_check_if_autocal_is_needed, task processing, report block *)
+(* (4) supla_esp_gpio_rs_check_if_autocal_is_needed, task processing, report block, last_time = t *)
+Definition cb_need (k : kcfg) (d : dev) : dev :=
+  if autocal_enabled k d && negb (autocal_done d) && (ac_step d =? 0)
+  then upd_cal d (ac_step d) true (button_req d) (detected d) else d.
+Definition stamp_last (d : dev) (t : Z) : dev := upd_times d (up_time d) (down_time d) t (last_comm d).
 Definition cb_tail (k : kcfg) (d : dev) (in_move : bool) (t fo fc : Z) : dev :=
-  let d := if autocal_enabled k d && negb (autocal_done d) && (ac_step d =? 0)
-           then upd_cal d (ac_step d) true (button_req d) (detected d) else d in
-  let d := task_processing k d in_move fo fc in
-  let d := report_block k d t in
-  upd_times d (up_time d) (down_time d) t (last_comm d).
+  stamp_last (report_block k (task_processing k (cb_need k d) in_move fo fc) t) t.
+(* stages 1-3 *)
+Definition cb_mid (o : fpops) (k : kcfg) (d : dev) (in_move : bool) : dev * Z * Z :=
+  cb_account o k (cb_power k (cb_head k d) in_move (autocal_enabled k d) (counter k d)) in_move (counter k d) (cb_fo k d) (cb_fc k d).
 Definition timer_cb (o : fpops) (k : kcfg) (d : dev) (in_move : bool) : dev :=
-  let t := counter k d in
-  let ae := autocal_enabled k d in
-  let fo := cb_fo k d in
-  let fc := cb_fc k d in
-  let d := cb_head k d in
-  let d := cb_power k d in_move ae t in
-  let a := cb_account o k d in_move t fo fc in
-  cb_tail k (fst (fst a)) in_move t (snd (fst a)) (snd a).
+  cb_tail k (fst (fst (cb_mid o k d in_move))) in_move (counter k d) (snd (fst (cb_mid o k d in_move))) (snd (cb_mid o k d in_move)).
 
 (* supla_esp_gpio_rs_apply_new__times (save flag irrelevant here) *)
 Definition apply_new_times (k : kcfg) (d : dev) (ct ot : Z) : dev :=
